@@ -1660,7 +1660,14 @@ func crossChoose(pauses []pause, order []int, zip bool) func(ls *lockstep, en []
 			t := inner(ls, en)
 			allReached := true
 			for _, p := range pauses {
-				if enabled[p.t] && ls.at[p.t] != p.y {
+				if !enabled[p.t] {
+					continue
+				}
+				if p.y < 0 { // pause after p.nth scheduling decisions, whatever the yield numbering of the code
+					if ls.nsteps[p.t] < p.nth {
+						allReached = false
+					}
+				} else if ls.at[p.t] != p.y {
 					allReached = false
 				}
 			}
@@ -1728,6 +1735,34 @@ func fixedCross(out *vh.Out) {
 						crossChoose([]pause{{0, yc, 1}, {1, yg, 1}}, []int{2, 1, 0}, false), "conc/cross3", true)
 					emitConcX(out, c.proto, 3, c.pre, [][]string{{cx}, {"g"}, {"g", "a"}}, nil,
 						crossChoose([]pause{{0, yc, 1}, {1, yg, 1}}, []int{2, 0, 1}, false), "conc/cross3", true)
+				}
+			}
+		}
+		// the same windows addressed by "the m-th atomic operation of the goroutine", WHATEVER its yield number (a
+		// variant of the code with more / other atomic operations - summary words, hints, flags - is explored step by
+		// step instead of being reported as an unknown yield sequence): a GetStream parked after m scheduling
+		// decisions, a complete Clear(x) of the same word by another goroutine inside, the GetStream finishes, then
+		// a third goroutine must still be able to acquire every free id; the dual: Clear(x) parked after m decisions,
+		// complete GetStreams inside, Clear finishes, a third goroutine acquires what is left; two GetStreams parked
+		// after m1 / m2 decisions, then both finish (in both orders).
+		maxM := 12
+		if c.proto > 2 {
+			maxM = 4
+		}
+		for m := 1; m <= maxM; m++ {
+			emitConcX(out, c.proto, 3, c.pre, [][]string{{cx}, {"g", "a"}, {"g", "g", "a"}}, nil,
+				crossChoose([]pause{{1, -1, m}}, []int{0, 1, 2}, false), "conc/step-window/get", true)
+			if m <= 8 {
+				emitConcX(out, c.proto, 3, c.pre, [][]string{{cx, "a"}, {"g", "a"}, {"g", "g", "a"}}, nil,
+					crossChoose([]pause{{0, -1, m}}, []int{1, 0, 2}, false), "conc/step-window/clear", true)
+			}
+			if c.proto <= 2 && m <= 8 {
+				for m2 := 1; m2 <= 8; m2++ {
+					for _, o := range [][]int{{0, 1, 2}, {1, 0, 2}} {
+						// first Clear(x) completely (thread 2), then two GetStreams racing for what is free
+						emitConcX(out, c.proto, 3, c.pre, [][]string{{"g", "a"}, {"g", "a"}, {cx}}, nil,
+							crossChoose([]pause{{2, -1, 1 << 20}, {0, -1, m}, {1, -1, m2}}, o, false), "conc/step-window/get2", true)
+					}
 				}
 			}
 		}
